@@ -2,7 +2,7 @@
 from regexgen import *
 ENGINE = "regex"
 TIMEOUT = 900
-PARTIAL = ["compile's termination (finiteness of the derivative closure) is not proved; see C19"]
+PARTIAL = []
 ASSUMPTIONS = ["oracle: the automaton's acceptance of all words <= k over the critical alphabet is compared with the reference matcher on the program; totality: next on every state x probe character must not panic"]
 
 
